@@ -550,7 +550,7 @@ func check(c Case, st *rig.Stats) error {
 }
 
 var stats = rig.NewStats("C19",
-	"(method lists include TRACE, an ordinary method on these routers) rapid draws a facade program of 2-22 steps over a witness-safe pool: creation of Prefix / nested Prefix / Resource / Prefix.Resource objects whose texts are pieces of pool patterns cut at arbitrary byte positions (empty prefixes, prefixes ending inside a token) with 0-2 middlewares, Handle / Get / Post / Delete / Put / Patch / Any through any object (also with rejected method lists), Remove, Clean, URL (strict or not) and Router.Use. Each step is also run in translated form on a second router with the same name, the same handler and the same middleware objects: Router.Handle / Remove / URL on the concatenated pattern and the concatenated middleware list; Prefix.Clean as Remove of every model pattern with that prefix. After every step both routers must agree on panic / no panic, Routes() (also equal to the table model), URL results and, for every live witness x ten methods and generated ambiguous paths, on handler id, route, params, status, Allow and the middleware names that ran. After the first Prefix.Clean only unambiguous witnesses are compared exactly (its translation prunes nodes differently, which may reorder same-kind siblings). Non-trivial: nesting depth >= 2, or a Remove/Clean through a facade after >= 3 registrations; distinct by hash of the case",
+	"(method lists include TRACE, an ordinary method on these routers) rapid draws a facade program of 2-22 steps over a witness-safe pool: creation of Prefix / nested Prefix / Resource / Prefix.Resource objects whose texts are pieces of pool patterns cut at arbitrary byte positions (empty prefixes, prefixes ending inside a token) with 0-2 middlewares, Handle / Get / Post / Delete / Put / Patch / Any through any object (also with rejected method lists), Remove, Clean, URL (strict or not) and Router.Use. Each step is also run in translated form on a second router with the same name, the same handler and the same middleware objects: Router.Handle / Remove / URL on the concatenated pattern and the concatenated middleware list; Prefix.Clean as Remove of every model pattern with that prefix. After every step both routers must agree on panic / no panic, Routes() (also equal to the table model), URL results and, for every live witness x ten methods and generated ambiguous paths, on handler id, route, params, status, Allow and the middleware names that ran. After the first Prefix.Clean only unambiguous witnesses are compared exactly (its translation prunes nodes differently, which may reorder same-kind siblings). Non-trivial: nesting depth >= 2, or a Remove/Clean through a facade after >= 3 registrations; distinct by hash of the case. Later additions to the generated domain: One facade in ten is created over text no route can be built from (creation must not panic; calls through it behave like the Router call on the concatenated text); the program follows the chained return values and checks Pattern() / Router(); once the router has accepted a pattern outside the grammar (a brace inside a parameter name) Routes() is compared between the two routers only. URL parameter values include token-like text ({x}, {id}, %s).",
 	"Prefix.Clean has no Router-level counterpart; its translation is Remove of every live pattern with that string prefix")
 
 func TestProp(t *testing.T) { rig.RunProp(t, stats, gen, check) }
